@@ -146,6 +146,7 @@ type Job struct {
 	GhostMask    int              `json:"ghostMask"`    // bit i: shard i has a first replica that never got the request
 	Perm         int              `json:"perm"`         // the order in which the shards finish, and where they resume from
 	Queue        int              `json:"queue"`        // > 0: also this many queue behaviours (queue.go: Parallelism < outstanding requests)
+	Loader       int              `json:"loader"`       // > 0: also this many loader behaviours (loader.go: several persisted requests with their own fraction lists across a restart)
 }
 
 var (
@@ -1183,6 +1184,9 @@ func runJob(j *Job) {
 	if j.Queue > 0 {
 		w.queueJob(report)
 	}
+	if j.Loader > 0 {
+		w.loaderJob(report)
+	}
 }
 
 // ---------------------------------------------------------------- order probe (run under strace)
@@ -1255,6 +1259,10 @@ func main() {
 		emit(map[string]any{"infra": err.Error()})
 		os.Exit(3)
 	}
+	if err := loadLoader(); err != nil {
+		emit(map[string]any{"infra": err.Error()})
+		os.Exit(3)
+	}
 	if *pvecFile != "" {
 		fh, err := os.Open(*pvecFile)
 		if err != nil {
@@ -1303,6 +1311,9 @@ func main() {
 		for nf := range qbehs {
 			qcursor[nf] = jobs[0].Pick
 		}
+		for nf := range lbehs {
+			lcursor[nf] = jobs[0].Pick
+		}
 	}
 	ch := make(chan *Job)
 	var wg sync.WaitGroup
@@ -1339,6 +1350,7 @@ func main() {
 			fh.Close()
 		}
 	}
+	writeLoaderCov()
 	nfd := 0
 	if ents, err := os.ReadDir("/proc/self/fd"); err == nil {
 		nfd = len(ents)
